@@ -1,6 +1,6 @@
 (* C19 — well-checksummed but inconsistent archives are rejected without crashing.
    An inconsistent archive is again just a file-system state: the theorems quantify over all of them. *)
-From Gopar Require Import Model.Base Model.CRC Model.GoPath Model.FS Model.Par2 Proofs.Par2Facts Proofs.Par2Verify Proofs.Par2Faults.
+From Gopar Require Import Model.Base Model.CRC Model.GoPath Model.FS Model.Par2 Model.Par1 Proofs.Par2Facts Proofs.Par2Verify Proofs.Par2Faults Proofs.Par1Facts Proofs.Par1Safety.
 Open Scope N_scope.
 
 Theorem C19_verify_no_panic : forall md5 ix st p, fst (par2_verify md5 ix st) <> Panic p.
@@ -25,3 +25,12 @@ Theorem C19_repair_no_panic : forall md5 ix dbl st p,
   fst (fst (par2_repair md5 ix dbl st)) <> Panic p.
 Proof. intros md5 ix dbl st p. exact (repair_no_panic md5 ix dbl st p []). Qed.
 Print Assumptions C19_repair_no_panic.
+
+(* PAR1: never a panic; only entry-verified data is written *)
+Theorem C19_par1_verify_no_panic : forall md5 ix all st p, fst (par1_verify md5 ix all st) <> Panic p.
+Proof. exact par1_verify_no_panic. Qed.
+Print Assumptions C19_par1_verify_no_panic.
+
+Theorem C19_par1_repair_no_panic : forall md5 ix dbl st p, fst (fst (par1_repair md5 ix dbl st)) <> Panic p.
+Proof. exact par1_repair_no_panic. Qed.
+Print Assumptions C19_par1_repair_no_panic.
